@@ -285,6 +285,21 @@ func sortStrings(a []string) {
 	}
 }
 
+// like bulkBody, with the CREATE_TRANSACTION elements chosen by scriptEncoded sent as {"script": {"plain": ..., "vars": {}}}
+func bulkBodyEnc(ops []Op) string {
+	els := make([]string, len(ops))
+	for i, o := range ops {
+		els[i] = opJSON(o)
+		if scriptEncoded(o) {
+			j := strings.Index(els[i], `"postings":[`)
+			k := strings.Index(els[i][j:], `],`) + j
+			sc, _ := json.Marshal(map[string]any{"plain": tplScript(o.Post), "vars": map[string]string{}})
+			els[i] = els[i][:j] + `"script":` + string(sc) + els[i][k+1:]
+		}
+	}
+	return "[" + strings.Join(els, ",") + "]"
+}
+
 func bulkBody(ops []Op) string {
 	els := make([]string, len(ops))
 	for i, o := range ops {
@@ -361,6 +376,8 @@ func apiErrClass(e BulkAPIResult) string {
 		return "idempotency_input"
 	case "NO_POSTINGS":
 		return "no_postings"
+	case "SCHEMA_NOT_SPECIFIED":
+		return "schema_not_specified"
 	}
 	if strings.Contains(e.ErrorDescription, "context canceled") {
 		return "cancelled"
